@@ -1,6 +1,7 @@
 import SeqVerif.Model.HistAssoc
 import SeqVerif.Model.ApiAsync
 import SeqVerif.Model.ProxyAsync
+import SeqVerif.Model.AsyncAck
 import SeqVerif.Extracted.C19
 /-!
 # C19 - a finished asynchronous search equals the synchronous one and survives restarts
@@ -96,6 +97,21 @@ theorem c19_request_eq_sync (s : StoreCfg) (hcold : s.hot = false) (hmh : s.maxH
       (p.hi > 0 → ∀ k, histGet (fetchFoldWith p.hi p.desc ((filterInRange (fs.map (·.toFrac p.from_ p.to_)) p.from_ p.to_).map
         (fracSearch (p.cfg s) · maxInt32))).hist k = histGet q.hist k) :=
   async_request_eq_sync s hcold hmh fs hok r p hp hsize
+
+/-! ## durable before ack (Model/AsyncAck.lean) -/
+
+/-- **every acknowledged search is durable at every later crash point.**  For every sequence of operations - searches
+started (with or without fractions in range), `StartSearch` calls torn by a crash, workers queued behind the
+`rateLimit` semaphore, partial results, completions, crashes and restarts, in any interleaving and any number: an id
+whose `StartSearch` returned nil has its `<id>.info` on disk ... -/
+theorem c19_acked_durable (ops : List AsyncAck.Op) :
+    ∀ id, id ∈ (AsyncAck.run ops).acked → id ∈ (AsyncAck.run ops).disk.map (·.1) :=
+  AsyncAck.inv_run ops
+
+/-- ... hence the restarted store knows it (and resumes it: `c19_resume`) -/
+theorem c19_acked_known_after_restart (ops : List AsyncAck.Op) (id : String) (h : id ∈ (AsyncAck.run ops).acked) :
+    id ∈ (AsyncAck.step (AsyncAck.run ops) .crash).mem :=
+  AsyncAck.known_after_crash ops id h
 
 /-! ## the proxy's fan-out (Model/ProxyAsync.lean) -/
 
@@ -211,6 +227,15 @@ theorem c19_x_proxy_fanout :
       "seq.MergeQPRs(&qpr, qprs, r.Size, histInterval, order)"] ∧
     proxyStartAsyncSearch = ["if err != nil { continue }", "break", "if err != nil { return }"] := by decide
 
+/-- **`StartSearch` persists before it acknowledges**: after the info is built, the first statement is the unconditional
+`updateSearchInfo` (which writes the info file atomically BEFORE registering the request in memory); only then the worker
+is started and nil returned - the `start` step of `SV.AsyncAck` -/
+theorem c19_x_durable_before_ack :
+    startSearchTail = ["as.updateSearchInfo(r.ID, info)", "if !requestDone { go as.processRequest(r.ID) }", "return nil"] ∧
+    updateSearchInfoBody = ["as.requestsMu.Lock()", "defer as.requestsMu.Unlock()", "as.mustWriteSearchInfo(id, info)",
+      "as.requests[id] = info"] ∧
+    writeSearchInfoCalls = ["json.Marshal", "mustWriteFileAtomic"] := by decide
+
 /-- the source contains the repaired fold (the model used by `c19_eq_sync_hist`) -/
 theorem c19_x_fetch_fixed : fetchUsesRequestInterval = true := by decide
 
@@ -260,6 +285,10 @@ example : SV.ProxyAsync.AllAccepted [[.notFound, .ok true ⟨[7], 0, some []⟩]
   refine ⟨⟨⟨by decide, fun j hj => ?_, by decide⟩, ⟨by decide, fun j hj => absurd hj (by omega), by decide⟩, trivial⟩, by decide +kernel⟩
   have : j = 0 := by omega
   subst this; rfl
+
+/-- two searches accepted, the second still queued, a crash, the first finishes later: both are on disk -/
+example : (AsyncAck.run [.start "a" false, .start "b" false, .work, .crash, .finish "a"]).disk = [("b", false), ("a", true)] ∧
+    (AsyncAck.run [.start "a" false, .start "b" false, .work, .crash, .finish "a"]).acked = ["b", "a"] := by decide
 
 /-- a three-fraction layout satisfying the hypotheses of `c19_eq_sync_*` -/
 example : (docsOf [(⟨2, 20, 40, [key 40 0, key 20 1]⟩ : Frac), ⟨2, 10, 30, [key 30 1, key 10 0]⟩, ⟨2, 5, 25, [key 25 0, key 5 7]⟩]).Nodup ∧
